@@ -35,7 +35,7 @@ ASSUMPTIONS = ["order_gfa output file names derive from the input file name; con
 
 def budget(tier):
     if tier == "quick":
-        return {"examples": 300, "shards": 2}
+        return {"examples": 220, "shards": 2}
     return {"examples": 1500, "shards": 16}
 
 
@@ -100,7 +100,8 @@ def strategy_(draw, tier):
             "region": "%s:%d-%d" % (contig, a, b), "tsv": "\n".join(tsv) + "\n", "paths": paths,
             "pysam_writer": big, "bgzf_name": draw(st.sampled_from(["in.gaf.gz", "in.gaf.gz", "in.gaf.bgz", "in.gaf"])),
             # gzip header bytes that BGZF leaves to the writer (MTIME, XFL, OS)
-            "bgzf_header": draw(st.sampled_from([None, None, [1700000000, 2, 3], [0, 4, 0]]))}
+            "bgzf_header": draw(st.sampled_from([None, None, [1700000000, 2, 3], [0, 4, 0]])),
+            "gaf_no_final_newline": (not big) and draw(st.integers(0, 5)) == 0}
 
 
 def strategy(tier):
@@ -110,6 +111,8 @@ def strategy(tier):
 def write_variant(d, case, gaf_kind, gfa_kind, bgzf_name=None):
     os.makedirs(d, exist_ok=True)
     data = "".join(l + "\n" for l in case["gaf"]).encode()
+    if case.get("gaf_no_final_newline"):
+        data = data[:-1]  # the file does not end in a line feed; its BGZF copy holds the same bytes
     table = None
     if gaf_kind == "plain":
         gaf = d + "/in.gaf"
